@@ -46,6 +46,7 @@ def tree_digest(extra=''):
                 with open(p, 'rb') as fh:
                     h.update(fh.read())
     h.update(extra.encode())
+    h.update(b'thorough' if os.environ.get('SA_THOROUGH') else b'quick')
     h.update(sys.version.encode())
     return h.hexdigest()
 
